@@ -1488,6 +1488,12 @@ def correspond(ctx):
                 roundtrip_run(ctx, "ins", c, base + 40 + 7 * ci + s)
         for ci, cfg in enumerate([neural[0], neural[2]] if ctx.quick else neural):
             roundtrip_run(ctx, "ins", cfg, base + 90 + ci)
+        # more than 10^4 stored samples: the density tables re-derived on resume come from ONE call over every stored sample;
+        # anything that treats a large array differently from a small one (batching with an off-by-one) only shows up here
+        # (seeded changes C12-fA / C12-fB)
+        big = dict(tiles[1])
+        big.update(nlive=3600, levels=3, min_samples=1000, name="tilt-big:logq=0:iid=1:logit")
+        roundtrip_run(ctx, "ins", big, base + 97)
         # ---- chains
         nk = ctx.scale(3, 5)
         for ci, cfg in enumerate(STD_CONFIGS):
